@@ -9,6 +9,7 @@
 import Lean.Data.Json
 import Core.Spec
 import Core.Sync
+import Core.Interleave
 open Lean Std Ru
 
 namespace Drv
@@ -261,7 +262,7 @@ def lookupBlocks (ds : DS) (j : Json) : E (Option (List Block)) :=
 
 /-- run one op under a given default for missing valuations; returns the candidate post-states
     (several for sync: one per admissible selection) and info -/
-def runOp (ds : DS) (env : Env) (j : Json) (o : ObsSt) : E (List Node × List (String × String)) := do
+def runBase (ds : DS) (env : Env) (j : Json) (o : ObsSt) : E (List Node × List (String × String)) := do
   let op ← jstr (← jget j "op")
   let name ← jstr (← jget j "node")
   let n := getNode ds name
@@ -352,6 +353,37 @@ def runOp (ds : DS) (env : Env) (j : Json) (o : ObsSt) : E (List Node × List (S
     pure ([n], [("read", if mp == page then "ok" else s!"DIFF page h={h} model={short mp} impl={short page}")])
   | _ => throw s!"unknown op {op}"
 
+/-- `synctick`: a sync round during which the node's own tick ran to completion — the candidates are those of the
+    model's `stepX … (.syncTick …)`, one per admissible selection of the round; the information (and the monitors that
+    depend on the kind of operation) are those of the sequential operation it behaved as. -/
+def runOp (ds : DS) (env : Env) (j : Json) (o : ObsSt) : E (List Node × List (String × String)) := do
+  let op ← jstr (← jget j "op")
+  if op != "synctick" then runBase ds env j o else
+  let name ← jstr (← jget j "node")
+  let n := getNode ds name
+  let cfg := cfgOf ds name
+  let (_, infoT) ← runBase ds env (j.setObjVal! "op" (Json.str "tick")) o
+  let produced := infoT.any (fun kv => kv.1 == "tick" && kv.2 == "produced")
+  let ts ← jint (← jget j "ts")
+  let permIds ← jstrList (← jget j "perm")
+  let perm := permIds.filterMap (fun id => n.pool.find? (·.id == id))
+  let rewardId := if o.chain.length == n.led.blocks.length + 1 then
+      match o.chain.getLast? >>= ds.blocks.get? with
+      | some b => (b.txs.getLast?.map (·.id)).getD "?"
+      | none => "?"
+    else "?"
+  let now ← jint (← jget j "now")
+  let resps ← (← jarr (← jget j "resps")).toList.mapM fun r => do
+    pure ({ target := ← jstr (← jget r "t"), first := ← lookupBlocks ds (jgetD r "a"), second := ← lookupBlocks ds (jgetD r "b") } : Resp)
+  let outs := Sync.outcomes env cfg n.led now resps
+  let picks := if produced then [0] else List.range (max 1 outs.length)
+  let cands := picks.map (fun k => stepX env cfg n (.syncTick now resps k ts perm rewardId))
+  if produced then
+    pure (cands, infoT ++ [("synctick", "round-gave-up"), ("effop", "tick")])
+  else
+    let (_, infoS) ← runBase ds env (j.setObjVal! "op" (Json.str "sync")) o
+    pure (cands, infoS ++ [("synctick", "tick-refused"), ("effop", "sync")])
+
 def step (ds : DS) (j : Json) : E (DS × Out) := do
   let ds ← loadDefs ds (jgetD j "defs")
   let op ← jstr (← jget j "op")
@@ -373,6 +405,8 @@ def step (ds : DS) (j : Json) : E (DS × Out) := do
   let envHi := mkEnv ds (U64 - 1)
   let (cands, info) ← runOp ds envLo j o
   let (candsHi, _) ← runOp ds envHi j o
+  -- the sequential operation a `synctick` behaved as
+  let op := if op == "synctick" then ((info.find? (fun kv => kv.1 == "effop")).map (·.2)).getD "sync" else op
   -- valuation-table coverage: the result must not depend on the default for missing entries
   let miss := cands.length != candsHi.length || !((List.zip cands candsHi).all (fun (a, b) => sameNode envLo a b))
   -- pick the candidate matching the observed chain (sync); otherwise the first
